@@ -842,7 +842,12 @@ impl Database {
         let new_version = {
             let mut db = self.map.write().unwrap();
             if let Some(old_version) = db.get(&change.key).cloned() {
-                let new_version = change.next_version(&old_version);
+                let mut new_version = change.next_version(&old_version);
+                if old_version.state == ValueStatus::Deleted && new_version <= old_version.version {
+                    // The key was removed (only a tombstone is left), writing it again is not a
+                    // conflict whatever version is presented, just keep the version growing.
+                    new_version = old_version.version + 1;
+                }
                 if new_version <= old_version.version && !change.allow_save_version() {
                     let state = old_version.get_update_value_sate();
                     log::debug!(
